@@ -21,8 +21,8 @@ type PCase struct {
 	Prop  string     `json:"prop"`
 	Cfg   Config     `json:"cfg"`
 	Procs int        `json:"procs"`
-	Hist  [][]Op     `json:"hist"`  // one history per goroutine
-	Roots []RootSpec `json:"roots"` // roots of every history
+	Hist  [][]Op     `json:"hist"`            // one history per goroutine
+	Roots []RootSpec `json:"roots"`           // roots of every history
 	Fault int        `json:"fault,omitempty"` // 1: failing ledger write in the parallel commit, 2: failing element encoder
 }
 
@@ -32,12 +32,12 @@ type FailEnc struct{}
 func (FailEnc) Storable(atree.SlabStorage, atree.Address, uint32) (atree.Storable, error) {
 	return FailEnc{}, nil
 }
-func (FailEnc) Encode(*atree.Encoder) error                          { return ErrInjected }
-func (FailEnc) ByteSize() uint32                                      { return 3 }
-func (FailEnc) StoredValue(atree.SlabStorage) (atree.Value, error)    { return FailEnc{}, nil }
-func (FailEnc) ChildStorables() []atree.Storable                      { return nil }
-func (FailEnc) CanCopyNonRefSimple() bool                             { return true }
-func (FailEnc) CopyNonRefSimple() (atree.Storable, error)             { return FailEnc{}, nil }
+func (FailEnc) Encode(*atree.Encoder) error                        { return ErrInjected }
+func (FailEnc) ByteSize() uint32                                   { return 3 }
+func (FailEnc) StoredValue(atree.SlabStorage) (atree.Value, error) { return FailEnc{}, nil }
+func (FailEnc) ChildStorables() []atree.Storable                   { return nil }
+func (FailEnc) CanCopyNonRefSimple() bool                          { return true }
+func (FailEnc) CopyNonRefSimple() (atree.Storable, error)          { return FailEnc{}, nil }
 
 type histResult struct {
 	digest  string
@@ -185,31 +185,37 @@ func parallelCommitPreload(cfg Config, pc *PCase, st *CaseStats) error {
 			if err != nil {
 				return err
 			}
-			switch pc.Fault {
-			case 1:
-				e.L.FailAt = map[int]bool{e.L.Writes + 1 + int(dirty)/2: true}
-			case 2:
-				// make one dirty slab unencodable: a root array (even worker counts: a root map) gets an element
-				// whose encoder fails after other elements of the same slab were encoded
-				for _, r := range e.Roots {
-					if err := e.acquire(r); err != nil {
-						return err
-					}
-					if !r.IsMap && w%2 == 1 {
-						if err := r.HA.Append(FailEnc{}); err != nil {
-							return fmt.Errorf("Append failed: %v", err)
+			inject := func(e *Engine) error {
+				switch pc.Fault {
+				case 1:
+					e.L.FailAt = map[int]bool{e.L.Writes + 1 + int(dirty)/2: true}
+				case 2:
+					// make one dirty slab unencodable: a root array (even worker counts: a root map) gets an element
+					// whose encoder fails after other elements of the same slab were encoded
+					for _, r := range e.Roots {
+						if err := e.acquire(r); err != nil {
+							return err
 						}
-						break
-					}
-					if r.IsMap && r.Dig == nil && w%2 == 0 {
-						for k := uint64(0); k < 4; k++ { // several keys: at least one is not the first of its slab
-							if _, err := r.HM.Set(e.CB.Compare, e.CB.HashInput, U64(5550000+k), FailEnc{}); err != nil {
-								return fmt.Errorf("Set failed: %v", err)
+						if !r.IsMap && w%2 == 1 {
+							if err := r.HA.Append(FailEnc{}); err != nil {
+								return fmt.Errorf("Append failed: %v", err)
 							}
+							break
 						}
-						break
+						if r.IsMap && r.Dig == nil && w%2 == 0 {
+							for k := uint64(0); k < 4; k++ { // several keys: at least one is not the first of its slab
+								if _, err := r.HM.Set(e.CB.Compare, e.CB.HashInput, U64(5550000+k), FailEnc{}); err != nil {
+									return fmt.Errorf("Set failed: %v", err)
+								}
+							}
+							break
+						}
 					}
 				}
+				return nil
+			}
+			if err := inject(e); err != nil {
+				return err
 			}
 			// a second, healthy storage whose commit directly follows a failing one (same goroutine, no
 			// garbage collection in between, so that pooled encoder state is handed over)
@@ -261,6 +267,28 @@ func parallelCommitPreload(cfg Config, pc *PCase, st *CaseStats) error {
 					}
 				}
 				st.label("parallel_commit_with_fault")
+				if !nondet && cerr != nil {
+					// the deterministic commit fails the same way on one goroutine: same error class, and the registers it
+					// leaves behind do not depend on the number of workers or on the order in which encodings arrive
+					e1, err := build()
+					if err != nil {
+						return err
+					}
+					if err := inject(e1); err != nil {
+						return err
+					}
+					cerr1 := e1.St.FastCommit(1)
+					if cerr1 == nil || isExternal(cerr1) != isExternal(cerr) || isFatal(cerr1) != isFatal(cerr) || isUser(cerr1) != isUser(cerr) {
+						return fmt.Errorf("failing commit: %d workers returned %v, 1 worker returned %v", w, cerr, cerr1)
+					}
+					if d := DiffRegs(e1.L.Regs, e.L.Regs); d != "" {
+						return fmt.Errorf("a failed deterministic commit (fault kind %d) with %d workers left other registers behind than with 1 worker: %s", pc.Fault, w, d)
+					}
+					if a, b := e1.St.DeltasWithoutTempAddresses(), e.St.DeltasWithoutTempAddresses(); a != b && pc.Fault != 2 {
+						return fmt.Errorf("a failed deterministic commit with %d workers leaves %d slabs pending, with 1 worker %d", w, b, a)
+					}
+					st.label("failed_commit_equals_one_worker")
+				}
 				continue
 			}
 			if cerr != nil {
